@@ -21,7 +21,7 @@ import time
 from common import Inconclusive, add_violations_from_bad, finish, log
 
 
-def threads(fns, limit=4):
+def threads(fns, limit=3):
     """Run callables concurrently, at most `limit` at a time (staggered starts); re-raise the first exception."""
     res, errs = [None] * len(fns), []
     sem = threading.Semaphore(limit)
@@ -70,12 +70,32 @@ def run(ctx):
     quick = ctx.quick()
     mc = {}
     built = {}
-    jobs = [lambda: mc.setdefault("gas", ctx.tlc("EvmGas", cfg="EvmGas.cfg", workers=2, coverage=not quick)),
+    gens = {}
+    jobs = [lambda: gens.setdefault("calls", ctx.tlc("EvmGasGen", cfg="EvmGasGen_calls.cfg", workers=2)),
+            lambda: gens.setdefault("mem", ctx.tlc("EvmGasGen", cfg="EvmGasGen_mem.cfg", workers=2)),
+            lambda: mc.setdefault("gas", ctx.tlc("EvmGas", cfg="EvmGas.cfg", workers=2, coverage=not quick)),
             lambda: built.setdefault("drv", ctx.build("c11"))]
     if not quick:
         jobs.append(lambda: mc.setdefault("gasbig", ctx.tlc("EvmGas", cfg="EvmGas_big.cfg", workers=4, coverage=True)))
     threads(jobs)
     drv = built["drv"]
+    # TLC-generated inputs: sequences of two call instructions (kinds x gas-argument classes incl. 0 x value x callee
+    # behaviour) and the cross product of memory operand classes for every instruction with a memory operand
+    script = {"calls": [], "mem": []}
+    for raw in ctx.tlc_lines(gens["calls"], "CALLS"):
+        script["calls"].append(json.loads(raw.strip()[1:-1].replace('\\"', '"')))
+    for raw in ctx.tlc_lines(gens["mem"], "MEM"):
+        script["mem"].append(json.loads(raw.strip()[1:-1].replace('\\"', '"')))
+    if not script["calls"] or not script["mem"]:
+        raise Inconclusive("EvmGasGen produced no inputs")
+    if quick:
+        # every pair with a zero gas argument, every third of the others
+        zero = [c for c in script["calls"] if any(x["gas"] == "0" for x in c)]
+        rest = [c for c in script["calls"] if not any(x["gas"] == "0" for x in c)]
+        script["calls"] = zero + rest[ctx.seed % 3::3]
+    log("EvmGasGen: %d call sequences, %d memory operand cases" % (len(script["calls"]), len(script["mem"])))
+    sp = os.path.join(ctx.scratch, "script.json")
+    json.dump(script, open(sp, "w"))
 
     # real runs: (config, runs, deep recursions, direct precompile calls per address)
     plan = [("a", 700, 4, 4), ("b", 300, 0, 1), ("c", 300, 0, 1)] if quick else \
@@ -86,9 +106,10 @@ def run(ctx):
         jt = os.path.join(ctx.scratch, "jumptable%d.json" % k)
         traces.append(tp)
         tables.append(jt)
-        argvs.append([drv, "--out", tp, "--scratch", os.path.join(ctx.scratch, "st%d" % k), "--runs", str(runs),
+        argvs.append([drv, "--out", tp, "--scratch", os.path.join(ctx.scratch, "st%d" % k), "--runs", str(runs)] +
+                     (["--script", sp] if k == 0 else []) + [
                       "--salt", str(k), "--config", cfg, "--jumptable", jt, "--deep", str(deep),
-                      "--precompiles", str(pre), "--maxsteps", "200" if quick else "300"])
+                     "--precompiles", str(pre), "--maxsteps", "200" if quick else "300"])
     outs = ctx.run_parallel(argvs, timeout=1500)
     tot, hist, maxdepth = parse_counts(outs)
     log("c11 drivers: %s maxdepth=%d" % (tot, maxdepth))
@@ -122,8 +143,10 @@ def run(ctx):
             if not want:
                 break
     coverage = {
-        "states": sum(r["distinct"] for r in mc.values()),
-        "transitions": sum(r["generated"] for r in mc.values()),
+        "states": sum(r["distinct"] for r in list(mc.values()) + list(gens.values())),
+        "transitions": sum(r["generated"] for r in list(mc.values()) + list(gens.values())),
+        "tlc_generated_call_sequences": len(script["calls"]),
+        "tlc_generated_memory_cases": len(script["mem"]),
         "traces_validated_against_impl": tot.get("runs", 0) + tot.get("precompile_calls", 0),
         "events_validated": total_events,
         "interpreter_steps_executed": tot.get("steps", 0),
